@@ -25,8 +25,10 @@ CheckCase(o) ==
             o.queries[k].kind = "grid" /\ (IF o.rich THEN o.queries[k].tolUnits > DenseRichTolUnits ELSE ~o.queries[k].exact)}}
     \cup {V(o, "C06.ScalarAndArrayQueriesAgree", k) : k \in {k \in 1..Len(o.queries) : ~o.queries[k].vecAgree}}
     \cup {V(o, "C06.EndSlopesAreRhsAtRecordedStates", k) : k \in {k \in 1..Len(o.pieces) :
-            o.pieces[k].m0Units > 0 \/ o.pieces[k].m1Units > 0}}
-    \cup {V(o, "C06.PiecesJoin", k) : k \in {k \in 1..Len(o.pieces) : ~o.pieces[k].joins}}
+            IF o.rich THEN o.pieces[k].m0Tol > DenseRichTolUnits \/ o.pieces[k].m1Tol > DenseRichTolUnits
+            ELSE o.pieces[k].m0Units > 0 \/ o.pieces[k].m1Units > 0}}
+    \cup {V(o, "C06.PiecesJoin", k) : k \in {k \in 1..Len(o.pieces) :
+            IF o.rich THEN o.pieces[k].joinTol > DenseRichTolUnits ELSE ~o.pieces[k].joins}}
     \cup {V(o, "C06.InterpolationErrorIsFourthOrder", k) : k \in {k \in 1..Len(o.mids) : o.mids[k].quot > DenseMidQuotient}}
     \cup (IF o.ok THEN {} ELSE {V(o, "C06.RunCompletes", 0)})
 Init == i = 1 /\ bad = {}
